@@ -16,6 +16,10 @@ theorem tie_h_mw_skipTokenAuth : Extracted.Auth.h_mw_skipTokenAuth = Canon.Auth.
 theorem tie_h_rest_auth_frontend_middleware_basic_auth_go : Extracted.Auth.h_rest_auth_frontend_middleware_basic_auth_go = Canon.Auth.h_rest_auth_frontend_middleware_basic_auth_go := by decide +kernel
 theorem tie_h_rest_auth_frontend_middleware_token_auth_go : Extracted.Auth.h_rest_auth_frontend_middleware_token_auth_go = Canon.Auth.h_rest_auth_frontend_middleware_token_auth_go := by decide +kernel
 theorem tie_h_rest_auth_frontend_middleware_global_go : Extracted.Auth.h_rest_auth_frontend_middleware_global_go = Canon.Auth.h_rest_auth_frontend_middleware_global_go := by decide +kernel
+theorem tie_h_rest_auth_frontend_frontend_go : Extracted.Auth.h_rest_auth_frontend_frontend_go = Canon.Auth.h_rest_auth_frontend_frontend_go := by decide +kernel
+theorem tie_h_rest_auth_frontend_server_server_go : Extracted.Auth.h_rest_auth_frontend_server_server_go = Canon.Auth.h_rest_auth_frontend_server_server_go := by decide +kernel
+theorem tie_h_rest_auth_config_config_go : Extracted.Auth.h_rest_auth_config_config_go = Canon.Auth.h_rest_auth_config_config_go := by decide +kernel
+theorem tie_h_rest_auth_frontend_gen_restapi_configure_blackdagger_go : Extracted.Auth.h_rest_auth_frontend_gen_restapi_configure_blackdagger_go = Canon.Auth.h_rest_auth_frontend_gen_restapi_configure_blackdagger_go := by decide +kernel
 theorem tie_skipBasicCond : Extracted.Auth.skipBasicCond = Canon.Auth.skipBasicCond := by decide +kernel
 theorem tie_wrapOrder : Extracted.Auth.wrapOrder = Canon.Auth.wrapOrder := by decide +kernel
 
@@ -32,6 +36,10 @@ theorem tie_wrapOrder : Extracted.Auth.wrapOrder = Canon.Auth.wrapOrder := by de
 #print axioms tie_h_rest_auth_frontend_middleware_basic_auth_go
 #print axioms tie_h_rest_auth_frontend_middleware_token_auth_go
 #print axioms tie_h_rest_auth_frontend_middleware_global_go
+#print axioms tie_h_rest_auth_frontend_frontend_go
+#print axioms tie_h_rest_auth_frontend_server_server_go
+#print axioms tie_h_rest_auth_config_config_go
+#print axioms tie_h_rest_auth_frontend_gen_restapi_configure_blackdagger_go
 #print axioms tie_skipBasicCond
 #print axioms tie_wrapOrder
 
